@@ -65,6 +65,8 @@ def generate(tier, rng):
 def drift_of(scen, sessions):
     out = []
     for k, sc in enumerate(scen):
+        if "sc" not in sc:
+            continue
         evs = [e for e in sessions.get(k + 1, []) if e["a"] in ("op", "cb")]
         for j, step in enumerate(sc["steps"]):
             if j >= len(evs):
@@ -84,6 +86,9 @@ def run(tier):
     build_harness()
     model_check(res, tier)
     scen = generate(tier, rng)
+    # directed: a send track and a track routed to it are built while the audio thread is between its resource drains
+    # (parked at the sto.refill yield point of the sub-track / send-track storage): never the track without its route
+    scen += [{"mode": "racy_add", "park": pk, "src": "directed-racy-add", "steps": []} for pk in ("sub", "send")]
     sp, tp = os.path.join(OUT, "c02", "scen.ndjson"), os.path.join(OUT, "c02", "trace.ndjson")
     write_ndjson(sp, scen)
     run_kv("c02", sp, tp)
@@ -92,8 +97,8 @@ def run(tier):
     res.drift += drift_of(scen, sessions_of(read_ndjson(tp)))
     res.evaluations = len(scen)
     for sc in scen:
-        res.distinct.add(behaviour_hash([sc["sc"], sc["b"], [(s["act"], s.get("o"), s.get("x"), s.get("n")) for s in sc["steps"]]]))
-    res.samples = [{"sc": s["sc"], "b": s["b"], "src": s["src"], "steps": [[x["act"], x.get("o"), x.get("x"), x.get("n")] for x in s["steps"]]}
+        res.distinct.add(behaviour_hash([sc.get("sc", sc.get("park")), sc.get("b"), [(s["act"], s.get("o"), s.get("x"), s.get("n")) for s in sc["steps"]]]))
+    res.samples = [{"sc": s.get("sc"), "b": s.get("b"), "src": s["src"], "steps": [[x["act"], x.get("o"), x.get("x"), x.get("n")] for x in s["steps"]]}
                    for s in scen[:1] + scen[-1:]]
     res.assumptions = ["probe samples are exact dyadic rationals, so equality is bit-exact", "commands reach the audio thread as in C07"]
     return res.finish("scenario = scene (shape, sounds, effect placement, volumes, route table) x internal buffer size x history of "
